@@ -350,6 +350,9 @@ void ut_close(int fd) { xv_ctl_close_calls++; xv_ctl_closed_fd = fd; }
 /* accept4(2): a new descriptor or -1 with any errno (EWOULDBLOCK == EAGAIN on Linux) */
 int ut_accept(int sockfd, struct sockaddr *addr, socklen_t *addrlen, unsigned int flags)
 {
+    /* C05: the control sessions are served from inside the application's xcm_* calls: their descriptors must be
+     * non-blocking, or a client that stops reading puts the application to sleep in send() */
+    __CPROVER_assert((flags & SOCK_NONBLOCK) != 0, "C05 control-session descriptors are accepted SOCK_NONBLOCK");
     int rc;
     if (nondet_bool()) { rc = -1; xv_errno = xv_ctl_any_errno(); }
     else { rc = nondet_int(); __CPROVER_assume(rc >= 0); xv_ctl_fds_made++; }
